@@ -28,6 +28,9 @@ CHECKS = {
     "C04": ("Hypothesis-generated displaced copies (analytic Gaussian blobs / Fourier-shifted broadband texture) with planted displacement incl. boundary classes; oracle = planted d with the tolerances stated in the property",
             "Generated-input exploration against planted ground truth: |shift-d| <= 0.1 px (ZNCC/NCC/PCC unmasked) or 0.5 px (FSC / masked), identity quaternion, superposition after shifting back, normalised score >= 0.9, via align and fit, with masks, cutoffs, tilt models and quaternions.",
             "three recorded known findings (ZNCC/NCC fractional bias <= 0.15 px; ZNCC/NCC tilt bias <= 1 px; FSC tilt bias <= 0.75 px) are counted, not failed; FSC only on broadband templates; masks never cut the core of the displaced density; tilt half-widths >= 40 deg", "4/C04"),
+    "C01": ("Hypothesis-generated planted poses: analytic Gaussian-blob particles rendered into tomograms at (p*, R*), input molecules perturbed by (m, q_k) inside the search range; oracle = planted pose and features, for single/batch/group/mock/multi-template/template-free loaders",
+            "Generated-input exploration against planted ground truth (position within 0.25 px, orientation within 1e-3 rad, shift/rotation/score features, template label, align_no_template == align(average)).",
+            "blob templates (>= 3 blobs at radius >= 2.5 px, distinct amplitudes) contained in the inscribed ball; rotation sets >= 25 deg apart; equal-energy templates for the multi-template kind; isotropic (max, step) grids taken from acryo's own normalize_rotations", "4/C01"),
 }
 
 NOT_YET = {}
